@@ -27,7 +27,7 @@ REPO = "/repo"
 CHECKS = {
     "json_tokener.c": ["C01", "C03", "C04", "C15", "C16", "C14", "C08"],
     "json_object.c": ["C02", "C05", "C07", "C09", "C10", "C11", "C06", "C08", "C14"],
-    "linkhash.c": ["C06", "C05", "C08", "C01"],
+    "linkhash.c": ["C06", "C05", "C08", "C01", "C18"],
     "arraylist.c": ["C07", "C05", "C08", "C01"],
     "printbuf.c": ["C19", "C02", "C03", "C08"],
     "json_pointer.c": ["C12", "C13", "C08"],
@@ -66,7 +66,7 @@ def candidates(path):
         if st.startswith("/*") and "*/" not in st:
             in_comment = True
             continue
-        if not st or st.startswith(("#", "//", "*", "/*")) or "MC_DEBUG" in st or "_set_last_err" in st or "fprintf" in st or "assert(" in st:
+        if not st or st.startswith(("#", "//", "*", "/*")) or "MC_DEBUG" in st or "_set_last_err" in st or "fprintf" in st or "assert(" in st or "JASSERT" in st:
             continue
         code = re.sub(r'"(?:[^"\\]|\\.)*"', '""', ln)
         code = re.sub(r"'(?:[^'\\]|\\.)'", "'x'", code)
